@@ -1631,7 +1631,7 @@ def charged_documented_oracle(a, b):
     return []
 
 
-def hydrogen_spelling_oracle(ints):
+def hydrogen_spelling_oracle(ints, fts=(False, True)):
     """canonicalize() promises a form without explicit hydrogens: the all-explicit spelling of a valid molecule must reach the
     same result as the implicit one, in one call. Returns [(check, detail, explained)]: `explained` = the difference is the
     recorded order-of-steps finding (rules run before implicify: a second call, or implicify first, gives the right result)."""
@@ -1639,26 +1639,29 @@ def hydrogen_spelling_oracle(ints):
     m0.clean_stereo()
     if not is_valid(m0) or any(a.atomic_number == 1 for _, a in m0.atoms()):
         return []
-    try:
-        ref = m0.copy()
-        ref.canonicalize(fix_tautomers=False)
-        e = m0.copy()
-        if not e.explicify_hydrogens():
-            return []
-        e1 = e.copy()
-        e1.canonicalize(fix_tautomers=False)
-    except Exception as ex:
-        return [('hydrogen-spelling', f'{type(ex).__name__}: {ex}', False)]
-    if same_structure(ref, e1):
-        return []
-    try:
-        e2 = e1.copy()
-        e2.canonicalize(fix_tautomers=False)
-        explained = same_structure(ref, e2) and any(a.atomic_number != 1 and a.implicit_hydrogens is not None for _, a in e1.atoms()) \
-            and not any(a.atomic_number == 1 for _, a in e1.atoms())
-    except Exception:
-        explained = False
-    return [('hydrogen-spelling', f'implicit -> {canon(ref)}, all-explicit -> {canon(e1)}', explained)]
+    out = []
+    for ft in fts:
+        try:
+            ref = m0.copy()
+            ref.canonicalize(fix_tautomers=ft)
+            e = m0.copy()
+            if not e.explicify_hydrogens():
+                return []
+            e1 = e.copy()
+            e1.canonicalize(fix_tautomers=ft)
+        except Exception as ex:
+            out.append(('hydrogen-spelling', f'{type(ex).__name__}: {ex}', False))
+            continue
+        if same_structure(ref, e1):
+            continue
+        try:
+            e2 = e1.copy()
+            e2.canonicalize(fix_tautomers=ft)
+            explained = same_structure(ref, e2) and not any(a.atomic_number == 1 for _, a in e1.atoms())
+        except Exception:
+            explained = False
+        out.append(('hydrogen-spelling', f'fix_tautomers={ft}: implicit -> {canon(ref)}, all-explicit -> {canon(e1)}', explained))
+    return out
 
 
 def twice_oracle(ints, op):
